@@ -13,13 +13,18 @@ open Polynomial
 
 variable {p : ℕ} {o : Ops} {κ : ZMod p}
 
-theorem core_minimal [Fact p.Prime] (ok : OpsOK o p κ) (seq : List ℕ) (hr : Red p seq) {i j : ℕ}
+/-- Any `T` with `T(0) ≠ 0`, `deg T ≤ L`, `2L ≤ n` that annihilates the sequence from `L` on is a
+polynomial multiple `T = out · A` of the returned vector, and the returned vector annihilates the
+sequence from `L - deg A` on. -/
+theorem core_minimal_dvd [Fact p.Prime] (ok : OpsOK o p κ) (seq : List ℕ) (hr : Red p seq)
+    {i j : ℕ}
     (hij : i < j) (hi : gd seq i ≠ 0) (hj : gd seq j ≠ 0) (T : (ZMod p)[X]) (hT0 : T.coeff 0 ≠ 0)
     (L : ℕ) (hL : 2 * L ≤ seq.length) (hTd : T.natDegree ≤ L)
     (hTa : ∀ i, L ≤ i → i < seq.length → (T * toPoly p seq).coeff i = 0)
     (out : List ℕ) (h : core o seq = some out) :
-    (∀ j, L < j → gd out j = 0) ∧
-      ∀ i, L ≤ i → i < seq.length → (toPoly p out * toPoly p seq).coeff i = 0 := by
+    ∃ A : (ZMod p)[X], T = toPoly p out * A ∧ (∀ j, L < j → gd out j = 0) ∧
+      ∀ i, L ≤ i + A.natDegree → i < seq.length →
+        (toPoly p out * toPoly p seq).coeff i = 0 := by
   obtain ⟨hn, s', inv, hdf, e⟩ := core_run ok seq hr hij hi hj
   have hl : 0 < s'.u.length := by rw [inv.lu]; omega
   rw [e] at h
@@ -124,7 +129,7 @@ theorem core_minimal [Fact p.Prime] (ok : OpsOK o p κ) (seq : List ℕ) (hr : R
     have := natDegree_mul hUne hAne
     rw [← hA] at this
     omega
-  have hFz : ∀ i, L ≤ i → F.coeff i = 0 := by
+  have hFz : ∀ i, L ≤ i + A.natDegree → F.coeff i = 0 := by
     intro i hi
     by_cases hF0 : F = 0
     · rw [hF0]; simp
@@ -138,7 +143,15 @@ theorem core_minimal [Fact p.Prime] (ok : OpsOK o p κ) (seq : List ℕ) (hr : R
       exact coeff_eq_zero_of_natDegree_lt (by omega)
   have hP : toPoly p out' = C c * U := by
     ext k; rw [coeff_C_mul, coeff_toPoly, ← hU, coeff_toPoly, g5]
-  constructor
+  have hcne : c ≠ 0 := by
+    intro hc0
+    have h5 := g5 0
+    unfold co at h5
+    rw [g4, hc0, zero_mul, Nat.cast_one] at h5
+    exact one_ne_zero h5
+  have hcinv : C c * C c⁻¹ = (1 : (ZMod p)[X]) := by rw [← C_mul, mul_inv_cancel₀ hcne, C_1]
+  refine ⟨C c⁻¹ * A, ?_, ?_, ?_⟩
+  · rw [hP, hA]; linear_combination (-(U * A)) * hcinv
   · intro j hj
     rw [← cast_eq_zero_of_lt (g3 j)]
     have h5 := g5 j
@@ -150,9 +163,21 @@ theorem core_minimal [Fact p.Prime] (ok : OpsOK o p κ) (seq : List ℕ) (hr : R
     rw [this]; simp
   · intro i hi1 hi2
     have hUS : U * S = F - a * X ^ seq.length := by rw [e1]; ring
+    have hdA : (C c⁻¹ * A).natDegree = A.natDegree := natDegree_C_mul (inv_ne_zero hcne)
+    rw [hdA] at hi1
     rw [hP, mul_assoc, coeff_C_mul, hUS, coeff_sub, hFz i hi1, coeff_mul_X_pow',
       if_neg (by omega)]
     simp
+
+theorem core_minimal [Fact p.Prime] (ok : OpsOK o p κ) (seq : List ℕ) (hr : Red p seq) {i j : ℕ}
+    (hij : i < j) (hi : gd seq i ≠ 0) (hj : gd seq j ≠ 0) (T : (ZMod p)[X]) (hT0 : T.coeff 0 ≠ 0)
+    (L : ℕ) (hL : 2 * L ≤ seq.length) (hTd : T.natDegree ≤ L)
+    (hTa : ∀ i, L ≤ i → i < seq.length → (T * toPoly p seq).coeff i = 0)
+    (out : List ℕ) (h : core o seq = some out) :
+    (∀ j, L < j → gd out j = 0) ∧
+      ∀ i, L ≤ i → i < seq.length → (toPoly p out * toPoly p seq).coeff i = 0 := by
+  obtain ⟨A, _, h1, h2⟩ := core_minimal_dvd ok seq hr hij hi hj T hT0 L hL hTd hTa out h
+  exact ⟨h1, fun i hi1 hi2 => h2 i (by omega) hi2⟩
 
 
 theorem core_minimal_list [Fact p.Prime] (ok : OpsOK o p κ) (seq : List ℕ)
